@@ -6,7 +6,7 @@ import json, os, sys
 HERE = os.path.dirname(os.path.dirname(os.path.abspath(__file__)))
 
 NOTE_COMMON = ("Trusted: go/types + go/ssa + go/packages of x/tools v0.29.0 and the analysers in /verif/gbv (unverified, hence 'other'); "
-               "non-test files only; ")
+               "non-test files only; the behaviour-preserving source normal forms of gbv/normalise*.go (DESIGN 9.6); ")
 
 # id -> (engine, technique, level text, level note, design ref)
 CHECKS = {}
